@@ -253,6 +253,19 @@ func parseStats(s string) info.PropMap {
 	return pm
 }
 
+func rawStatsStr(pm info.PropMap) string {
+	var ks []int
+	for k := range pm {
+		ks = append(ks, int(k))
+	}
+	sort.Ints(ks)
+	var out []string
+	for _, k := range ks {
+		out = append(out, fmt.Sprintf("%d:%s", k, wire.FStr(pm[prop.Property(k)])))
+	}
+	return strings.Join(out, "|")
+}
+
 func dresStr(m info.DebuffRESMap) string {
 	var ks []int
 	for k := range m {
@@ -497,7 +510,7 @@ func (modComp) Exec(c *wire.Case, w *wire.Writer) {
 				} else {
 					p2 = append(p2, "0")
 				}
-				s := statsStr(vi.Model.Stats)
+				s := rawStatsStr(vi.RawStats) // the instance's own entries, zero-valued ones included
 				if s == "" {
 					s = "-"
 				}
